@@ -16,7 +16,7 @@ from . import c02 as C02
 ID = "C05"
 LEVEL = "exploration"
 BUDGET = {
-    "quick": {"runs": 1600, "wall": 240, "chunk": 25},
+    "quick": {"runs": 4000, "wall": 240, "chunk": 25},
     "thorough": {"runs": 40000, "wall": 3000, "chunk": 100},
 }
 RULE = (
